@@ -614,22 +614,30 @@ func Enum[C any](t *testing.T, r *Rec, sub string, n int, mk func(i int) C, run 
 }
 
 func replayOne[C any](t *testing.T, r *Rec, sub string, run func(tb TB, c C)) {
-	b, err := os.ReadFile(Replay)
-	if err != nil {
-		t.Fatalf("replay: %v", err)
+	for _, path := range strings.Split(Replay, ",") {
+		if path == "" {
+			continue
+		}
+		b, err := os.ReadFile(path)
+		if err != nil {
+			t.Fatalf("replay: %v", err)
+		}
+		var rf ReplayFile
+		if err := json.Unmarshal(b, &rf); err != nil {
+			t.Fatalf("replay %s: %v", path, err)
+		}
+		if rf.Property != r.Prop || rf.Sub != sub {
+			continue
+		}
+		var c C
+		if err := json.Unmarshal(rf.Case, &c); err != nil {
+			t.Fatalf("replay %s: cannot decode case: %v", path, err)
+		}
+		ok := t.Run("replay-"+sanitize(sub)+"-"+sanitize(filepath.Base(path)), func(t *testing.T) { run(t, c) })
+		End()
+		r.Add("replayed", 1)
+		if !ok {
+			os.WriteFile(filepath.Join(OutDir, "replay-failed-"+sanitize(filepath.Base(path))), []byte(path), 0o644)
+		}
 	}
-	var rf ReplayFile
-	if err := json.Unmarshal(b, &rf); err != nil {
-		t.Fatalf("replay: %v", err)
-	}
-	if rf.Property != r.Prop || rf.Sub != sub {
-		return
-	}
-	var c C
-	if err := json.Unmarshal(rf.Case, &c); err != nil {
-		t.Fatalf("replay: cannot decode case: %v", err)
-	}
-	t.Run("replay-"+sanitize(sub), func(t *testing.T) { run(t, c) })
-	End()
-	r.Add("replayed", 1)
 }
